@@ -111,6 +111,9 @@ def one(rep, prog, cfg):
     b = inlined(prog, b, same_impl_helpers(b))
     if b.raw.get("inlined"):
         rep.sample({"C17 helpers spliced into album_art (%s)" % cfg: sorted(set(b.raw["inlined"]))})
+    # `let (mut out, expected_size, mime) = match first { .. }`: the components are kept apart
+    from ..inline import scalarize_tuples
+    b = scalarize_tuples(prog, b)
     g = Cfg(b)
     fl = Flow(b)
     ext = [(bb, t) for bb, t in b.calls() if any(n in APPENDS for n in callee_names(t)) and len(t["args"]) == 2
@@ -287,7 +290,26 @@ def one(rep, prog, cfg):
         a = code5[0]
         allowed_edges.append((a["bb"], a["true"] if a["op"] == "Eq" else a["false"]))
     states = fr.reach(S["bb"], init, avoid_edges=allowed_edges)
-    leaks = F in fr.blocks(states)
+    from ..cfg import VariantReach
+    vr = VariantReach(b)
+    entry_states = vr.reach(0)
+
+    def vblocks(start, avoid_edges=(), set_local=None):
+        """blocks reachable from `start` in the variant-sensitive state graph, entered with what is known there on the ways from
+        the function's entry (`set_local` = (local, variant): after `start` has run, the local holds that variant)"""
+        out = set()
+        for env in {e for bb0, e in entry_states if bb0 == start}:
+            if set_local is None:
+                out |= vr.blocks(start, dict(env), avoid_edges=avoid_edges)
+                continue
+            for n, et in vr.step(start, env):
+                e2 = dict(et)
+                e2[set_local[0]] = tuple(set_local[1])
+                out |= {start} | vr.blocks(n, e2, avoid_edges=avoid_edges)
+        return out
+    # both are supersets of the feasible blocks (flags / enum variants decide the switches they know about), so is their meet:
+    # `match first { Ok(Some(r)) => Some(r), .. }` followed by `match that { None => fallback }` is as good as a flag
+    leaks = F in fr.blocks(states) and F in vblocks(S["bb"], avoid_edges=allowed_edges)
     rep.check(none_edge is not None, "C17.fallback", cfg + "/fallback on empty reply", b.loc(b.blocks[E]["ts"]),
               "no Ok(None) edge found after the embedded-picture request")
     rep.check(code5 is not None and code5[1] == 5, "C17.fallback", cfg + "/fallback on ACK code 5", b.loc(b.blocks[E]["ts"]),
@@ -304,8 +326,6 @@ def one(rep, prog, cfg):
                       "the %s edge does not lead to the cover-file request" % name)
     # "propagates any other server error": after an Err reply to the cover-file request or to any chunk request nothing more is
     # requested or appended and no Ok(..) is returned (variant-sensitive reachability from the awaited result, A13)
-    from ..cfg import VariantReach
-    vr = VariantReach(b)
     others = [bb for bb in cmd_calls if bb != E]
     for bb in others:
         kind = "+".join(sorted(cmd_kind(b, fl, bb))) or "?"
@@ -324,50 +344,25 @@ def one(rep, prog, cfg):
                   (kind, "goes on to another request / append" if more else ("returns Ok(..)" if oks else "does not return")))
     rep.floor("C17.fallback", cfg + "/requests whose error must propagate", len(others), 3)
     # ---- C17.source ----
-    # the flag recording which command produced the first chunk: found by its role, not its name — a constant-only boolean
-    # that is set to true somewhere after the embedded reply and (directly or as an argument copy) decides a branch in the loop
-    tested = set()
-    for bb in loop:
-        t = b.blocks[bb]["t"]
-        if t["k"] == "switch":
-            l = op_local(t["discr"])
-            seen_l = set()
-            while l is not None and l not in seen_l:
-                seen_l.add(l)
-                if l in flags:
-                    tested.add(l)
-                    break
-                if l in fr.snap:
-                    l = fr.snap[l]
-                    continue
-                defs = [s2 for _, _, s2 in b.stmts() if s2["k"] == "assign" and s2["place"]["l"] == l and not s2["place"]["p"]]
-                l = op_local(defs[0]["rv"]["op"]) if len(defs) == 1 and defs[0]["rv"]["k"] == "use" else None
-    set_true = {s2["place"]["l"] for bb2, _, s2 in b.stmts() if s2["k"] == "assign" and s2["place"]["l"] in flags and s2["rv"]["k"] == "use"
-                and const_int(op_const(s2["rv"]["op"])) == 1 and bb2 in g.reach([E])}
-    source_flags = sorted(tested & set_true)
-    for val, want in ((1, "embedded"), (0, "cover")):
-        init2 = dict(init)
-        for f in flags:
-            if f in source_flags:
-                init2[f] = val
-        # from the loop guard with the flag set, which chunk command is used
-        hdr = guard[0]["bb"] if guard else min(loop)
-        st = fr.reach(hdr, init2, avoid=[ebb])
-        kinds = set()
-        for bb in fr.blocks(st) & set(cmds_in_loop):
-            kinds |= cmd_kind(b, fl, bb)
-        rep.check(kinds == {want}, "C17.source", "%s/flag=%d uses %s" % (cfg, val, "+".join(sorted(kinds)) or "-"), b.loc(b.span),
-                  "with the embedded flag %s the loop requests chunks with %s, expected only the %s command" % (bool(val), sorted(kinds), want))
-    flagname = [b.locals[f]["name"] for f in flags]
-    rep.check(len(source_flags) == 1, "C17.source", cfg + "/source flag", b.loc(b.span),
-              "no boolean flag recording which command produced the first chunk was found (idiom unknown: failing closed)", detail={"flags": flagname})
-    # the flag is set exactly on the Some arm of the embedded reply
-    if some_t is not None:
-        for f in flags:
-            if f in source_flags:
-                st = fr.reach(some_t, init)
-                vals_at_F = {dict(v).get(f) for bb, v in st if bb == F}
-                rep.check(not vals_at_F, "C17.source", cfg + "/found picture is not refetched", b.loc(b.blocks[F]["ts"]),
+    # decided on the outcomes of the first request (A13: enum variants and boolean flags decide the switches on the way): after a
+    # found embedded picture only the embedded command asks for further chunks and the cover file is not requested; after an
+    # empty reply or the tolerated error only the cover-file command does.  However the choice is remembered — a flag set in the
+    # arm, `first.is_some()`, the matched value itself — is immaterial.
+    dE = awaited_def(b, fl, E)
+    if dE is None:
+        rep.fail("C17.source", cfg + "/first reply", b.loc(b.blocks[E]["ts"]), "cannot find where the reply to the embedded-picture request is awaited (failing closed)")
+    else:
+        for variant, want, label in ((("Ok", "Some"), "embedded", "found embedded picture"), (("Ok", "None"), "cover", "no embedded picture"),
+                                     (("Err",), "cover", "embedded-picture request not supported")):
+            after = vblocks(dE[0], set_local=(dE[1], variant))
+            kinds = set()
+            for bb in after & set(cmds_in_loop):
+                kinds |= cmd_kind(b, fl, bb)
+            rep.check(kinds == {want}, "C17.source", "%s/%s: chunks requested with %s" % (cfg, label, "+".join(sorted(kinds)) or "-"), b.loc(b.span),
+                      "after the outcome '%s' of the first request the loop requests chunks with %s, expected only the %s command: chunks of "
+                      "two different pictures would be mixed" % (label, sorted(kinds) or "nothing", want))
+            if variant == ("Ok", "Some"):
+                rep.check(F not in after, "C17.source", cfg + "/found picture is not refetched", b.loc(b.blocks[F]["ts"]),
                           "after a successful embedded-picture reply the cover-file request is still issued")
     # ---- C17.mime ----
     ret_mime = False
